@@ -288,6 +288,14 @@ def check_likelihood(e1: int, e2: int, n_out: int, n_mech: int,
         ok = ok and pm.n_parameters() == n == len(pm.get_parameter_names())
         pm.fix_parameters(fixed)
         ok = ok and pm.n_parameters() == n2 == len(pm.get_parameter_names())
+    # release everything again after a gradient evaluation (sensitivities
+    # are on at that moment): count, names and gradient length are back to n
+    if fixed and len(fixed) < n:
+        ll.evaluateS1(np.full(n - len(fixed), 0.9))
+        ll.fix_parameters({k_: None for k_ in fixed})
+        ok = ok and ll.n_parameters() == n == len(ll.get_parameter_names())
+        sc, gr = ll.evaluateS1(np.full(n, 0.9))
+        ok = ok and np.shape(gr) == (n,)
     # the same error-model *instance* handed in for every output: distinct
     # parameters still carry distinct names, in output order
     if n_out == 2 and e1 == e2:
